@@ -21,7 +21,7 @@ LEVEL_TEXT = (
     "Every acyclic, complete combination of argument lists for an assignment-defined parameter, an assignment-defined "
     "variable, derived quantities d1..d3, the rate of a reaction and a computed coefficient (menus of 6/6/5/4/3/3/4 "
     "entries) is built in 2 declaration orders; initial conditions, assignment-defined parameter values, Simulator.y0, "
-    "the derived-parameter / derived-variable classification and all values at 3 supplied states x 2 times are compared "
+    "the derived-parameter / derived-variable classification and all values at 4 supplied (state, time) points are compared "
     "with a reachability analysis and the reference evaluator."
     " Added: coefficient-table reads between states, a simulator override that must stay local, a simulation "
     "whose result views are read, and then edits of a rate law, a derived function, a parameter and an initial "
@@ -143,7 +143,7 @@ def check(case):
             return outcome(False, "wrong-classification", symptom="wrong-classification", nontrivial=nt,
                            detail=f"derived parameters {got_par} expected {exp_par}; derived variables {got_var} expected {exp_var} | {txt}")
         var_names = ref.var_names
-        for k, t in enumerate((0.0, 2.5, 0.0, 2.5, 1.0, 4.0)):
+        for k, t in enumerate((0.0, 2.5, 0.0, 4.0)):
             state = {v: 0.4 + 0.7 * ((i + k) % 3) + 0.1 * k for i, v in enumerate(var_names)}
             exp = ref.all_values(state, t)
             got = m.get_args(state, t)
@@ -155,15 +155,17 @@ def check(case):
             # the time-course form with the frame's columns in reverse order: columns are names, not positions
             import pandas as pd
 
-            frame = pd.DataFrame({v: [state[v]] for v in reversed(var_names)}, index=[t])
-            atc = m.get_args_time_course(frame)
-            for n, val in exp.items():
-                if n in atc.columns and not _close(float(atc.loc[t, n]), val):
-                    return outcome(False, "wrong-value", symptom="wrong-value:time-course-form", nontrivial=nt,
-                                   detail=f"get_args_time_course with columns {list(frame.columns)}: {n} at t={t} is {atc.loc[t, n]} expected {val} | {txt}")
+            if k == 1:
+                frame = pd.DataFrame({v: [state[v]] for v in reversed(var_names)}, index=[t])
+                atc = m.get_args_time_course(frame)
+                for n, val in exp.items():
+                    if n in atc.columns and not _close(float(atc.loc[t, n]), val):
+                        return outcome(False, "wrong-value", symptom="wrong-value:time-course-form", nontrivial=nt,
+                                       detail=f"get_args_time_course with columns {list(frame.columns)}: {n} at t={t} is {atc.loc[t, n]} expected {val} | {txt}")
             # reading the coefficient table at this state must not freeze anything for the next one
-            m.get_stoichiometries(state, t)
-            m.get_stoichiometries_of_variable(var_names[-1], state, t)
+            if k <= 1:
+                m.get_stoichiometries(state, t)
+                m.get_stoichiometries_of_variable(var_names[-1], state, t)
             rhs = m.get_right_hand_side(state, t)
             er = ref.rhs(state, t)
             for v in var_names:
